@@ -102,6 +102,17 @@ impl<'i> Sink<'i> {
             }
         }
     }
+    pub fn panicked(&mut self, name: &'static str, msg: String) {
+        let loc = msg.rsplit(" @ ").next().unwrap_or("?");
+        let loc = match loc.find("etherparse/src/") {
+            Some(p) => &loc[p..],
+            None => loc,
+        };
+        self.bad.push((format!("panic:{}:{}", name, loc), format!("panic escaped at entry point `{}`: {}", name, msg)));
+        if self.keep_text {
+            self.text.push_str("PANICKED; ");
+        }
+    }
     pub fn flag(&mut self, sig: &str, detail: String) {
         self.bad.push((format!("{}:{}", sig, self.cur), detail));
     }
@@ -845,22 +856,27 @@ macro_rules! rd {
     ($s:expr, $case:expr, $name:literal, $bytes:expr, |$c:ident| $call:expr) => {{
         $s.enter($case, $name);
         let mut $c = Cursor::new($bytes);
-        let r = $call;
+        let r = crate::fw::guarded(|| $call);
         let pos = $c.position();
-        match &r {
-            Ok(v) => {
-                $s.ok.push($name);
-                $s.dbg("Ok", v);
+        match r {
+            Err(msg) => $s.panicked($name, msg),
+            Ok(r) => {
+                match &r {
+                    Ok(v) => {
+                        $s.ok.push($name);
+                        $s.dbg("Ok", v);
+                    }
+                    Err(e) => {
+                        $s.err.push($name);
+                        $s.dbg("Err", e);
+                        $s.disp("msg", e);
+                    }
+                }
+                $s.dbg("pos", &pos);
+                if pos as usize > $bytes.len() {
+                    $s.flag("reader-position-beyond-input", format!("{}: cursor at {} of {}", $name, pos, $bytes.len()));
+                }
             }
-            Err(e) => {
-                $s.err.push($name);
-                $s.dbg("Err", e);
-                $s.disp("msg", e);
-            }
-        }
-        $s.dbg("pos", &pos);
-        if pos as usize > $bytes.len() {
-            $s.flag("reader-position-beyond-input", format!("{}: cursor at {} of {}", $name, pos, $bytes.len()));
         }
     }};
 }
@@ -869,77 +885,100 @@ macro_rules! rd {
 // doors
 
 /// run every entry point that is meaningful for `door` on `b` and observe everything
+/// one entry point: a panic inside is recorded for this entry point and the remaining entry points still run
+macro_rules! ep {
+    ($s:ident, $case:ident, $name:literal, $body:block) => {{
+        $s.enter($case, $name);
+        let r = crate::fw::guarded(|| $body);
+        if let Err(msg) = r {
+            $s.panicked($name, msg);
+        }
+    }};
+}
+
 pub fn run_door(door: Door, b: &[u8], s: &mut Sink, case: &mut Case) {
     match door {
         Door::Eth2 => {
-            s.enter(case, "SlicedPacket::from_ethernet");
+            ep!(s, case, "SlicedPacket::from_ethernet", {
             let r = SlicedPacket::from_ethernet(b);
             if s.res(&r) {
                 sliced(s, r.as_ref().unwrap());
             }
-            s.enter(case, "LaxSlicedPacket::from_ethernet");
+            });
+            ep!(s, case, "LaxSlicedPacket::from_ethernet", {
             let r = LaxSlicedPacket::from_ethernet(b);
             if s.res(&r) {
                 lax_sliced(s, r.as_ref().unwrap());
             }
-            s.enter(case, "PacketHeaders::from_ethernet_slice");
+            });
+            ep!(s, case, "PacketHeaders::from_ethernet_slice", {
             let r = PacketHeaders::from_ethernet_slice(b);
             if s.res(&r) {
                 headers(s, r.as_ref().unwrap());
             }
-            s.enter(case, "LaxPacketHeaders::from_ethernet");
+            });
+            ep!(s, case, "LaxPacketHeaders::from_ethernet", {
             let r = LaxPacketHeaders::from_ethernet(b);
             if s.res(&r) {
                 lax_headers(s, r.as_ref().unwrap());
             }
-            s.enter(case, "Ethernet2Slice::from_slice_without_fcs");
+            });
+            ep!(s, case, "Ethernet2Slice::from_slice_without_fcs", {
             let r = Ethernet2Slice::from_slice_without_fcs(b);
             if s.res(&r) {
                 eth2(s, r.as_ref().unwrap());
             }
-            s.enter(case, "Ethernet2Slice::from_slice_with_crc32_fcs");
+            });
+            ep!(s, case, "Ethernet2Slice::from_slice_with_crc32_fcs", {
             let r = Ethernet2Slice::from_slice_with_crc32_fcs(b);
             if s.res(&r) {
                 eth2(s, r.as_ref().unwrap());
             }
-            s.enter(case, "Ethernet2HeaderSlice::from_slice");
+            });
+            ep!(s, case, "Ethernet2HeaderSlice::from_slice", {
             let r = Ethernet2HeaderSlice::from_slice(b);
             if s.res(&r) {
                 let h = r.as_ref().unwrap();
                 s.sl("slice", h.slice());
                 s.dbg("f", &(h.destination(), h.source(), h.ether_type(), h.to_header()));
             }
-            s.enter(case, "Ethernet2Header::from_slice");
+            });
+            ep!(s, case, "Ethernet2Header::from_slice", {
             let r = Ethernet2Header::from_slice(b);
             if s.res(&r) {
                 let (h, rest) = r.as_ref().unwrap();
                 s.dbg("h", h);
                 s.sl("rest", rest);
             }
+            });
             rd!(s, case, "Ethernet2Header::read", b, |c| Ethernet2Header::read(&mut c));
         }
         Door::Sll => {
-            s.enter(case, "SlicedPacket::from_linux_sll");
+            ep!(s, case, "SlicedPacket::from_linux_sll", {
             let r = SlicedPacket::from_linux_sll(b);
             if s.res(&r) {
                 sliced(s, r.as_ref().unwrap());
             }
-            s.enter(case, "LaxPacketHeaders::from_linux_sll");
+            });
+            ep!(s, case, "LaxPacketHeaders::from_linux_sll", {
             let r = LaxPacketHeaders::from_linux_sll(b);
             if s.res(&r) {
                 lax_headers(s, r.as_ref().unwrap());
             }
-            s.enter(case, "LinuxSllSlice::from_slice");
+            });
+            ep!(s, case, "LinuxSllSlice::from_slice", {
             let r = LinuxSllSlice::from_slice(b);
             if s.res(&r) {
                 sll(s, r.as_ref().unwrap());
             }
-            s.enter(case, "LinuxSllHeaderSlice::from_slice");
+            });
+            ep!(s, case, "LinuxSllHeaderSlice::from_slice", {
             let r = LinuxSllHeaderSlice::from_slice(b);
             if s.res(&r) {
                 sll_header(s, r.as_ref().unwrap());
             }
-            s.enter(case, "LinuxSllHeader::from_slice");
+            });
+            ep!(s, case, "LinuxSllHeader::from_slice", {
             let r = LinuxSllHeader::from_slice(b);
             if s.res(&r) {
                 let (h, rest) = r.as_ref().unwrap();
@@ -947,68 +986,79 @@ pub fn run_door(door: Door, b: &[u8], s: &mut Sink, case: &mut Case) {
                 s.sl("rest", rest);
                 s.owned("bytes", &h.to_bytes());
             }
+            });
             rd!(s, case, "LinuxSllHeader::read", b, |c| LinuxSllHeader::read(&mut c));
         }
         Door::Ether(t) => {
             let et = EtherType(t);
-            s.enter(case, "SlicedPacket::from_ether_type");
+            ep!(s, case, "SlicedPacket::from_ether_type", {
             let r = SlicedPacket::from_ether_type(et, b);
             if s.res(&r) {
                 sliced(s, r.as_ref().unwrap());
             }
-            s.enter(case, "LaxSlicedPacket::from_ether_type");
+            });
+            ep!(s, case, "LaxSlicedPacket::from_ether_type", {
             let r = LaxSlicedPacket::from_ether_type(et, b);
             s.big("value", &r);
             lax_sliced(s, &r);
-            s.enter(case, "PacketHeaders::from_ether_type");
+            });
+            ep!(s, case, "PacketHeaders::from_ether_type", {
             let r = PacketHeaders::from_ether_type(et, b);
             if s.res(&r) {
                 headers(s, r.as_ref().unwrap());
             }
-            s.enter(case, "LaxPacketHeaders::from_ether_type");
+            });
+            ep!(s, case, "LaxPacketHeaders::from_ether_type", {
             let r = LaxPacketHeaders::from_ether_type(et, b);
             s.big("value", &r);
             lax_headers(s, &r);
+            });
             match t {
                 0x8100 | 0x88A8 | 0x9100 => {
-                    s.enter(case, "SingleVlanSlice::from_slice");
+                    ep!(s, case, "SingleVlanSlice::from_slice", {
                     let r = SingleVlanSlice::from_slice(b);
                     if s.res(&r) {
                         vlan(s, r.as_ref().unwrap());
                     }
-                    s.enter(case, "SingleVlanHeaderSlice::from_slice");
+                    });
+                    ep!(s, case, "SingleVlanHeaderSlice::from_slice", {
                     let r = SingleVlanHeaderSlice::from_slice(b);
                     if s.res(&r) {
                         let h = r.as_ref().unwrap();
                         s.sl("slice", h.slice());
                         s.dbg("f", &(h.priority_code_point(), h.drop_eligible_indicator(), h.vlan_identifier(), h.ether_type(), h.to_header()));
                     }
-                    s.enter(case, "SingleVlanHeader::from_slice");
+                    });
+                    ep!(s, case, "SingleVlanHeader::from_slice", {
                     let r = SingleVlanHeader::from_slice(b);
                     if s.res(&r) {
                         let (h, rest) = r.as_ref().unwrap();
                         s.dbg("h", h);
                         s.sl("rest", rest);
                     }
+                    });
                     rd!(s, case, "SingleVlanHeader::read", b, |c| SingleVlanHeader::read(&mut c));
                 }
                 0x88E5 => {
-                    s.enter(case, "MacsecSlice::from_slice");
+                    ep!(s, case, "MacsecSlice::from_slice", {
                     let r = MacsecSlice::from_slice(b);
                     if s.res(&r) {
                         macsec(s, r.as_ref().unwrap());
                     }
-                    s.enter(case, "LaxMacsecSlice::from_slice");
+                    });
+                    ep!(s, case, "LaxMacsecSlice::from_slice", {
                     let r = LaxMacsecSlice::from_slice(b);
                     if s.res(&r) {
                         lax_macsec(s, r.as_ref().unwrap());
                     }
-                    s.enter(case, "MacsecHeaderSlice::from_slice");
+                    });
+                    ep!(s, case, "MacsecHeaderSlice::from_slice", {
                     let r = MacsecHeaderSlice::from_slice(b);
                     if s.res(&r) {
                         macsec_header(s, r.as_ref().unwrap());
                     }
-                    s.enter(case, "MacsecHeader::from_slice");
+                    });
+                    ep!(s, case, "MacsecHeader::from_slice", {
                     let r = MacsecHeader::from_slice(b);
                     if s.res(&r) {
                         let h = r.as_ref().unwrap();
@@ -1016,94 +1066,109 @@ pub fn run_door(door: Door, b: &[u8], s: &mut Sink, case: &mut Case) {
                         s.dbg("f", &(h.header_len(), h.expected_payload_len(), h.next_ether_type(), h.encrypted(), h.userdata_changed()));
                         s.owned("bytes", &h.to_bytes());
                     }
+                    });
                     rd!(s, case, "MacsecHeader::read", b, |c| MacsecHeader::read(&mut c));
                 }
                 0x0806 => {
-                    s.enter(case, "ArpPacketSlice::from_slice");
+                    ep!(s, case, "ArpPacketSlice::from_slice", {
                     let r = ArpPacketSlice::from_slice(b);
                     if s.res(&r) {
                         arp(s, r.as_ref().unwrap());
                     }
-                    s.enter(case, "ArpPacket::from_slice");
+                    });
+                    ep!(s, case, "ArpPacket::from_slice", {
                     let r = ArpPacket::from_slice(b);
                     if s.res(&r) {
                         arp_packet(s, r.as_ref().unwrap());
                     }
+                    });
                     rd!(s, case, "ArpPacket::read", b, |c| ArpPacket::read(&mut c));
                 }
                 _ => {}
             }
         }
         Door::Ip => {
-            s.enter(case, "SlicedPacket::from_ip");
+            ep!(s, case, "SlicedPacket::from_ip", {
             let r = SlicedPacket::from_ip(b);
             if s.res(&r) {
                 sliced(s, r.as_ref().unwrap());
             }
-            s.enter(case, "LaxSlicedPacket::from_ip");
+            });
+            ep!(s, case, "LaxSlicedPacket::from_ip", {
             let r = LaxSlicedPacket::from_ip(b);
             if s.res(&r) {
                 lax_sliced(s, r.as_ref().unwrap());
             }
-            s.enter(case, "PacketHeaders::from_ip_slice");
+            });
+            ep!(s, case, "PacketHeaders::from_ip_slice", {
             let r = PacketHeaders::from_ip_slice(b);
             if s.res(&r) {
                 headers(s, r.as_ref().unwrap());
             }
-            s.enter(case, "LaxPacketHeaders::from_ip");
+            });
+            ep!(s, case, "LaxPacketHeaders::from_ip", {
             let r = LaxPacketHeaders::from_ip(b);
             if s.res(&r) {
                 lax_headers(s, r.as_ref().unwrap());
             }
-            s.enter(case, "IpSlice::from_slice");
+            });
+            ep!(s, case, "IpSlice::from_slice", {
             let r = IpSlice::from_slice(b);
             if s.res(&r) {
                 ip(s, r.as_ref().unwrap());
             }
-            s.enter(case, "LaxIpSlice::from_slice");
+            });
+            ep!(s, case, "LaxIpSlice::from_slice", {
             let r = LaxIpSlice::from_slice(b);
             if s.res(&r) {
                 let (i, stop) = r.as_ref().unwrap();
                 lax_ip(s, i);
                 s.dbg("stop", stop);
             }
-            s.enter(case, "Ipv4Slice::from_slice");
+            });
+            ep!(s, case, "Ipv4Slice::from_slice", {
             let r = Ipv4Slice::from_slice(b);
             if s.res(&r) {
                 ipv4(s, r.as_ref().unwrap());
             }
-            s.enter(case, "LaxIpv4Slice::from_slice");
+            });
+            ep!(s, case, "LaxIpv4Slice::from_slice", {
             let r = LaxIpv4Slice::from_slice(b);
             if s.res(&r) {
                 let (i, stop) = r.as_ref().unwrap();
                 lax_ipv4(s, i);
                 s.dbg("stop", stop);
             }
-            s.enter(case, "Ipv6Slice::from_slice");
+            });
+            ep!(s, case, "Ipv6Slice::from_slice", {
             let r = Ipv6Slice::from_slice(b);
             if s.res(&r) {
                 ipv6(s, r.as_ref().unwrap());
             }
-            s.enter(case, "Ipv6Slice::from_slice_lax");
+            });
+            ep!(s, case, "Ipv6Slice::from_slice_lax", {
             let r = Ipv6Slice::from_slice_lax(b);
             if s.res(&r) {
                 ipv6(s, r.as_ref().unwrap());
             }
-            s.enter(case, "LaxIpv6Slice::from_slice");
+            });
+            ep!(s, case, "LaxIpv6Slice::from_slice", {
             let r = LaxIpv6Slice::from_slice(b);
             if s.res(&r) {
                 let (i, stop) = r.as_ref().unwrap();
                 lax_ipv6(s, i);
                 s.dbg("stop", stop);
             }
-            s.enter(case, "IpHeaders::from_slice");
+            });
+            ep!(s, case, "IpHeaders::from_slice", {
             let r = IpHeaders::from_slice(b);
             if s.res(&r) {
                 let (h, p) = r.as_ref().unwrap();
                 ip_headers(s, h);
                 ip_payload(s, "p", p);
             }
-            s.enter(case, "IpHeaders::from_slice_lax");
+            });
+            ep!(s, case, "IpHeaders::from_slice_lax", {
             let r = IpHeaders::from_slice_lax(b);
             if s.res(&r) {
                 let (h, p, stop) = r.as_ref().unwrap();
@@ -1111,14 +1176,16 @@ pub fn run_door(door: Door, b: &[u8], s: &mut Sink, case: &mut Case) {
                 lax_ip_payload(s, "p", p);
                 s.dbg("stop", stop);
             }
-            s.enter(case, "IpHeaders::from_ipv4_slice");
+            });
+            ep!(s, case, "IpHeaders::from_ipv4_slice", {
             let r = IpHeaders::from_ipv4_slice(b);
             if s.res(&r) {
                 let (h, p) = r.as_ref().unwrap();
                 ip_headers(s, h);
                 ip_payload(s, "p", p);
             }
-            s.enter(case, "IpHeaders::from_ipv4_slice_lax");
+            });
+            ep!(s, case, "IpHeaders::from_ipv4_slice_lax", {
             let r = IpHeaders::from_ipv4_slice_lax(b);
             if s.res(&r) {
                 let (h, p, stop) = r.as_ref().unwrap();
@@ -1126,14 +1193,16 @@ pub fn run_door(door: Door, b: &[u8], s: &mut Sink, case: &mut Case) {
                 lax_ip_payload(s, "p", p);
                 s.dbg("stop", stop);
             }
-            s.enter(case, "IpHeaders::from_ipv6_slice");
+            });
+            ep!(s, case, "IpHeaders::from_ipv6_slice", {
             let r = IpHeaders::from_ipv6_slice(b);
             if s.res(&r) {
                 let (h, p) = r.as_ref().unwrap();
                 ip_headers(s, h);
                 ip_payload(s, "p", p);
             }
-            s.enter(case, "IpHeaders::from_ipv6_slice_lax");
+            });
+            ep!(s, case, "IpHeaders::from_ipv6_slice_lax", {
             let r = IpHeaders::from_ipv6_slice_lax(b);
             if s.res(&r) {
                 let (h, p, stop) = r.as_ref().unwrap();
@@ -1141,30 +1210,35 @@ pub fn run_door(door: Door, b: &[u8], s: &mut Sink, case: &mut Case) {
                 lax_ip_payload(s, "p", p);
                 s.dbg("stop", stop);
             }
-            s.enter(case, "Ipv4HeaderSlice::from_slice");
+            });
+            ep!(s, case, "Ipv4HeaderSlice::from_slice", {
             let r = Ipv4HeaderSlice::from_slice(b);
             if s.res(&r) {
                 ipv4_header(s, r.as_ref().unwrap());
             }
-            s.enter(case, "Ipv4Header::from_slice");
+            });
+            ep!(s, case, "Ipv4Header::from_slice", {
             let r = Ipv4Header::from_slice(b);
             if s.res(&r) {
                 let (h, rest) = r.as_ref().unwrap();
                 s.dbg("h", h);
                 s.sl("rest", rest);
             }
-            s.enter(case, "Ipv6HeaderSlice::from_slice");
+            });
+            ep!(s, case, "Ipv6HeaderSlice::from_slice", {
             let r = Ipv6HeaderSlice::from_slice(b);
             if s.res(&r) {
                 ipv6_header(s, r.as_ref().unwrap());
             }
-            s.enter(case, "Ipv6Header::from_slice");
+            });
+            ep!(s, case, "Ipv6Header::from_slice", {
             let r = Ipv6Header::from_slice(b);
             if s.res(&r) {
                 let (h, rest) = r.as_ref().unwrap();
                 s.dbg("h", h);
                 s.sl("rest", rest);
             }
+            });
             rd!(s, case, "IpHeaders::read", b, |c| IpHeaders::read(&mut c));
             rd!(s, case, "Ipv4Header::read", b, |c| Ipv4Header::read(&mut c));
             rd!(s, case, "Ipv6Header::read", b, |c| Ipv6Header::read(&mut c));
@@ -1175,7 +1249,7 @@ pub fn run_door(door: Door, b: &[u8], s: &mut Sink, case: &mut Case) {
         }
         Door::Ipv4Exts(n) => {
             let ipn = IpNumber(n);
-            s.enter(case, "Ipv4ExtensionsSlice::from_slice");
+            ep!(s, case, "Ipv4ExtensionsSlice::from_slice", {
             let r = Ipv4ExtensionsSlice::from_slice(ipn, b);
             if s.res(&r) {
                 let (e, next, rest) = r.as_ref().unwrap();
@@ -1183,43 +1257,49 @@ pub fn run_door(door: Door, b: &[u8], s: &mut Sink, case: &mut Case) {
                 s.dbg("next", next);
                 s.sl("rest", rest);
             }
-            s.enter(case, "Ipv4ExtensionsSlice::from_slice_lax");
+            });
+            ep!(s, case, "Ipv4ExtensionsSlice::from_slice_lax", {
             let (e, next, rest, stop) = Ipv4ExtensionsSlice::from_slice_lax(ipn, b);
             ipv4_exts(s, &e);
             s.dbg("next", &next);
             s.sl("rest", rest);
             s.dbg("stop", &stop);
-            s.enter(case, "Ipv4Extensions::from_slice");
+            });
+            ep!(s, case, "Ipv4Extensions::from_slice", {
             let r = Ipv4Extensions::from_slice(ipn, b);
             if s.res(&r) {
                 let (e, next, rest) = r.as_ref().unwrap();
                 s.dbg("e", &(e, next, e.header_len(), e.is_empty(), e.next_header(ipn)));
                 s.sl("rest", rest);
             }
-            s.enter(case, "Ipv4Extensions::from_slice_lax");
+            });
+            ep!(s, case, "Ipv4Extensions::from_slice_lax", {
             let (e, next, rest, stop) = Ipv4Extensions::from_slice_lax(ipn, b);
             s.dbg("e", &(&e, next, &stop));
             s.sl("rest", rest);
+            });
             if n == 51 {
-                s.enter(case, "IpAuthHeaderSlice::from_slice");
+                ep!(s, case, "IpAuthHeaderSlice::from_slice", {
                 let r = IpAuthHeaderSlice::from_slice(b);
                 if s.res(&r) {
                     auth(s, r.as_ref().unwrap());
                 }
-                s.enter(case, "IpAuthHeader::from_slice");
+                });
+                ep!(s, case, "IpAuthHeader::from_slice", {
                 let r = IpAuthHeader::from_slice(b);
                 if s.res(&r) {
                     let (h, rest) = r.as_ref().unwrap();
                     s.dbg("h", h);
                     s.sl("rest", rest);
                 }
+                });
                 rd!(s, case, "IpAuthHeader::read", b, |c| IpAuthHeader::read(&mut c));
             }
             rd!(s, case, "Ipv4Extensions::read", b, |c| Ipv4Extensions::read(&mut c, ipn));
         }
         Door::Ipv6Exts(n) => {
             let ipn = IpNumber(n);
-            s.enter(case, "Ipv6ExtensionsSlice::from_slice");
+            ep!(s, case, "Ipv6ExtensionsSlice::from_slice", {
             let r = Ipv6ExtensionsSlice::from_slice(ipn, b);
             if s.res(&r) {
                 let (e, next, rest) = r.as_ref().unwrap();
@@ -1227,77 +1307,88 @@ pub fn run_door(door: Door, b: &[u8], s: &mut Sink, case: &mut Case) {
                 s.dbg("next", next);
                 s.sl("rest", rest);
             }
-            s.enter(case, "Ipv6ExtensionsSlice::from_slice_lax");
+            });
+            ep!(s, case, "Ipv6ExtensionsSlice::from_slice_lax", {
             let (e, next, rest, stop) = Ipv6ExtensionsSlice::from_slice_lax(ipn, b);
             drive_ipv6_exts(s, "exts", &e);
             s.dbg("next", &next);
             s.sl("rest", rest);
             s.dbg("stop", &stop);
-            s.enter(case, "Ipv6Extensions::from_slice");
+            });
+            ep!(s, case, "Ipv6Extensions::from_slice", {
             let r = Ipv6Extensions::from_slice(ipn, b);
             if s.res(&r) {
                 let (e, next, rest) = r.as_ref().unwrap();
                 s.dbg("e", &(e, next, e.header_len(), e.is_empty(), e.is_fragmenting_payload(), e.next_header(ipn)));
                 s.sl("rest", rest);
             }
-            s.enter(case, "Ipv6Extensions::from_slice_lax");
+            });
+            ep!(s, case, "Ipv6Extensions::from_slice_lax", {
             let (e, next, rest, stop) = Ipv6Extensions::from_slice_lax(ipn, b);
             s.dbg("e", &(&e, next, &stop));
             s.sl("rest", rest);
-            s.enter(case, "Ipv6Header::skip_header_extension_in_slice");
+            });
+            ep!(s, case, "Ipv6Header::skip_header_extension_in_slice", {
             let r = Ipv6Header::skip_header_extension_in_slice(b, ipn);
             if s.res(&r) {
                 let (next, rest) = r.as_ref().unwrap();
                 s.dbg("next", next);
                 s.sl("rest", rest);
             }
-            s.enter(case, "Ipv6Header::skip_all_header_extensions_in_slice");
+            });
+            ep!(s, case, "Ipv6Header::skip_all_header_extensions_in_slice", {
             let r = Ipv6Header::skip_all_header_extensions_in_slice(b, ipn);
             if s.res(&r) {
                 let (next, rest) = r.as_ref().unwrap();
                 s.dbg("next", next);
                 s.sl("rest", rest);
             }
+            });
             rd!(s, case, "Ipv6Header::skip_header_extension", b, |c| Ipv6Header::skip_header_extension(&mut c, ipn));
             rd!(s, case, "Ipv6Header::skip_all_header_extensions", b, |c| Ipv6Header::skip_all_header_extensions(&mut c, ipn));
             rd!(s, case, "Ipv6Extensions::read", b, |c| Ipv6Extensions::read(&mut c, ipn));
             match n {
                 0 | 43 | 60 => {
-                    s.enter(case, "Ipv6RawExtHeaderSlice::from_slice");
+                    ep!(s, case, "Ipv6RawExtHeaderSlice::from_slice", {
                     let r = Ipv6RawExtHeaderSlice::from_slice(b);
                     if s.res(&r) {
                         raw_ext(s, r.as_ref().unwrap());
                     }
-                    s.enter(case, "Ipv6RawExtHeader::from_slice");
+                    });
+                    ep!(s, case, "Ipv6RawExtHeader::from_slice", {
                     let r = Ipv6RawExtHeader::from_slice(b);
                     if s.res(&r) {
                         let (h, rest) = r.as_ref().unwrap();
                         s.dbg("h", h);
                         s.sl("rest", rest);
                     }
+                    });
                     rd!(s, case, "Ipv6RawExtHeader::read", b, |c| Ipv6RawExtHeader::read(&mut c));
                 }
                 44 => {
-                    s.enter(case, "Ipv6FragmentHeaderSlice::from_slice");
+                    ep!(s, case, "Ipv6FragmentHeaderSlice::from_slice", {
                     let r = Ipv6FragmentHeaderSlice::from_slice(b);
                     if s.res(&r) {
                         frag(s, r.as_ref().unwrap());
                     }
-                    s.enter(case, "Ipv6FragmentHeader::from_slice");
+                    });
+                    ep!(s, case, "Ipv6FragmentHeader::from_slice", {
                     let r = Ipv6FragmentHeader::from_slice(b);
                     if s.res(&r) {
                         let (h, rest) = r.as_ref().unwrap();
                         s.dbg("h", h);
                         s.sl("rest", rest);
                     }
+                    });
                     rd!(s, case, "Ipv6FragmentHeader::read", b, |c| Ipv6FragmentHeader::read(&mut c));
                 }
                 51 => {
-                    s.enter(case, "IpAuthHeaderSlice::from_slice");
+                    ep!(s, case, "IpAuthHeaderSlice::from_slice", {
                     let r = IpAuthHeaderSlice::from_slice(b);
                     if s.res(&r) {
                         auth(s, r.as_ref().unwrap());
                     }
+                    });
                     rd!(s, case, "IpAuthHeader::read", b, |c| IpAuthHeader::read(&mut c));
                 }
                 _ => {}
@@ -1305,44 +1396,50 @@ pub fn run_door(door: Door, b: &[u8], s: &mut Sink, case: &mut Case) {
         }
         Door::Transport(n) => match n {
             17 => {
-                s.enter(case, "UdpSlice::from_slice");
+                ep!(s, case, "UdpSlice::from_slice", {
                 let r = UdpSlice::from_slice(b);
                 if s.res(&r) {
                     udp(s, r.as_ref().unwrap());
                 }
-                s.enter(case, "UdpSlice::from_slice_lax");
+                });
+                ep!(s, case, "UdpSlice::from_slice_lax", {
                 let r = UdpSlice::from_slice_lax(b);
                 if s.res(&r) {
                     udp(s, r.as_ref().unwrap());
                 }
-                s.enter(case, "UdpHeaderSlice::from_slice");
+                });
+                ep!(s, case, "UdpHeaderSlice::from_slice", {
                 let r = UdpHeaderSlice::from_slice(b);
                 if s.res(&r) {
                     let h = r.as_ref().unwrap();
                     s.sl("slice", h.slice());
                     s.dbg("f", &(h.source_port(), h.destination_port(), h.length(), h.checksum(), h.to_header()));
                 }
-                s.enter(case, "UdpHeader::from_slice");
+                });
+                ep!(s, case, "UdpHeader::from_slice", {
                 let r = UdpHeader::from_slice(b);
                 if s.res(&r) {
                     let (h, rest) = r.as_ref().unwrap();
                     s.dbg("h", h);
                     s.sl("rest", rest);
                 }
+                });
                 rd!(s, case, "UdpHeader::read", b, |c| UdpHeader::read(&mut c));
             }
             6 => {
-                s.enter(case, "TcpSlice::from_slice");
+                ep!(s, case, "TcpSlice::from_slice", {
                 let r = TcpSlice::from_slice(b);
                 if s.res(&r) {
                     tcp(s, r.as_ref().unwrap());
                 }
-                s.enter(case, "TcpHeaderSlice::from_slice");
+                });
+                ep!(s, case, "TcpHeaderSlice::from_slice", {
                 let r = TcpHeaderSlice::from_slice(b);
                 if s.res(&r) {
                     tcp_header(s, r.as_ref().unwrap());
                 }
-                s.enter(case, "TcpHeader::from_slice");
+                });
+                ep!(s, case, "TcpHeader::from_slice", {
                 let r = TcpHeader::from_slice(b);
                 if s.res(&r) {
                     let (h, rest) = r.as_ref().unwrap();
@@ -1350,44 +1447,51 @@ pub fn run_door(door: Door, b: &[u8], s: &mut Sink, case: &mut Case) {
                     s.sl("rest", rest);
                     s.dbg("opts", &h.options_iterator());
                 }
+                });
                 rd!(s, case, "TcpHeader::read", b, |c| TcpHeader::read(&mut c));
-                s.enter(case, "TcpOptionsIterator::from_slice");
+                ep!(s, case, "TcpOptionsIterator::from_slice", {
                 drive_tcp_options(s, "raw.opt", TcpOptionsIterator::from_slice(b));
+                });
             }
             1 => {
-                s.enter(case, "Icmpv4Slice::from_slice");
+                ep!(s, case, "Icmpv4Slice::from_slice", {
                 let r = Icmpv4Slice::from_slice(b);
                 if s.res(&r) {
                     icmpv4(s, r.as_ref().unwrap());
                 }
-                s.enter(case, "Icmpv4Header::from_slice");
+                });
+                ep!(s, case, "Icmpv4Header::from_slice", {
                 let r = Icmpv4Header::from_slice(b);
                 if s.res(&r) {
                     let (h, rest) = r.as_ref().unwrap();
                     s.dbg("h", h);
                     s.sl("rest", rest);
                 }
+                });
                 rd!(s, case, "Icmpv4Header::read", b, |c| Icmpv4Header::read(&mut c));
             }
             58 => {
-                s.enter(case, "Icmpv6Slice::from_slice");
+                ep!(s, case, "Icmpv6Slice::from_slice", {
                 let r = Icmpv6Slice::from_slice(b);
                 if s.res(&r) {
                     icmpv6(s, r.as_ref().unwrap());
                 }
-                s.enter(case, "Icmpv6Header::from_slice");
+                });
+                ep!(s, case, "Icmpv6Header::from_slice", {
                 let r = Icmpv6Header::from_slice(b);
                 if s.res(&r) {
                     let (h, rest) = r.as_ref().unwrap();
                     s.dbg("h", h);
                     s.sl("rest", rest);
                 }
+                });
                 rd!(s, case, "Icmpv6Header::read", b, |c| Icmpv6Header::read(&mut c));
-                s.enter(case, "NdpOptionsIterator::from_slice");
+                ep!(s, case, "NdpOptionsIterator::from_slice", {
                 drive_ndp_options(s, "raw.ndp", icmpv6::NdpOptionsIterator::from_slice(b));
+                });
             }
             2 => {
-                s.enter(case, "IgmpHeader::from_slice");
+                ep!(s, case, "IgmpHeader::from_slice", {
                 let r = IgmpHeader::from_slice(b);
                 if s.res(&r) {
                     let (h, rest) = r.as_ref().unwrap();
@@ -1395,25 +1499,29 @@ pub fn run_door(door: Door, b: &[u8], s: &mut Sink, case: &mut Case) {
                     s.sl("rest", rest);
                     s.owned("bytes", &h.to_bytes());
                 }
+                });
             }
             _ => {}
         },
         Door::TcpOpts => {
-            s.enter(case, "TcpOptionsIterator::from_slice");
+            ep!(s, case, "TcpOptionsIterator::from_slice", {
             drive_tcp_options(s, "raw.opt", TcpOptionsIterator::from_slice(b));
             s.ok.push("TcpOptionsIterator::from_slice");
-            s.enter(case, "TcpOptions::try_from_slice");
+            });
+            ep!(s, case, "TcpOptions::try_from_slice", {
             let r = TcpOptions::try_from_slice(b);
             if s.res(&r) {
                 let o = r.as_ref().unwrap();
                 s.dbg("len", &(o.len(), o.data_offset(), o.is_empty()));
                 drive_tcp_options_ex(s, "opts.iter", o.elements_iter(), false);
             }
+            });
         }
         Door::NdpOpts => {
-            s.enter(case, "NdpOptionsIterator::from_slice");
+            ep!(s, case, "NdpOptionsIterator::from_slice", {
             drive_ndp_options(s, "raw.ndp", icmpv6::NdpOptionsIterator::from_slice(b));
             s.ok.push("NdpOptionsIterator::from_slice");
+            });
         }
     }
 }
